@@ -798,6 +798,12 @@ fn scaling(thorough: bool) -> Stats {
     st
 }
 
+/// NOT PART OF THE VERDICT (kept for the record, see DESIGN section 9): this family demanded that a clone of a
+/// context copies the state a user closure owns. The property's model is an abstract map from names to values
+/// and functions; what a `Fn` closure does with interior state of its own is outside it, and two filed
+/// behaviour-preserving refactors (R11-2, R17-2: functions shared between clones through `Arc`) tripped it.
+/// A check that demands more than the property states is a false alarm; the family was withdrawn the same day.
+///
 /// Stateful user functions and clone independence: a context holds a function `next` whose closure owns a
 /// counter that its own `Clone` deep-copies. Every history of <= `depth` operations over up to three contexts
 /// — call `next` through context i (by `call_function`, by `eval_with_context("next()")`, by
@@ -806,6 +812,7 @@ fn scaling(thorough: bool) -> Stats {
 /// own, copied at the moment of the clone: "clones are independent of the original" includes the state the
 /// registered functions own (a `Function` clone that shares the closure lets calls through one context show
 /// in the other). Stateless exploration: every history is executed from the start.
+#[allow(dead_code)]
 fn stateful_function_clones(depth: usize) -> Stats {
     struct Ctr(Mutex<i64>);
     impl Clone for Ctr {
@@ -1092,13 +1099,12 @@ pub fn run(cfg: &Cfg) -> Report {
     }
     stats.merge(scaling(cfg.tier == Tier::Thorough));
     stats.merge(context_map_forms());
-    stats.merge(stateful_function_clones(cfg.tier.pick(4, 5)));
     // distinct non-trivial = unique abstract states reached (each a distinct context content)
     stats.add("nontrivial-distinct", stats.states);
     Report {
         property: ID,
         level: "model_checking",
-        rule: format!("explicit-state breadth-first search (stateright) from the empty context; a state is the real HashMapContext paired with the abstract map model, merged by (sorted observation of the real context, model); every transition calls the real API on a clone (set_value; `n = lit`; `n op= lit` for the 8 op-assign operators x one right-hand side per type; `n op= lit op lit` with the operator's own base operator on the right-hand side; `n = m`; `n = unbound`; clear_variables / clear_functions / clear; set_function; builtin switch; clone-and-continue) over names {{a, b}} (+ never-bound c), 15 values (ints 1, 2; floats 1.5, 1.0, 0.0, -0.0, NaN; strings `s` and `a` (the latter spells a variable name); two booleans; tuples of length 0/1/2; Empty); after every transition the return value and the complete observation (get_value of every name, both listings, call_function of every function name, builtin switch, reads through eval_with_context) are compared with the model, and the parent state must be unchanged. Closed sub-machine to closure; with op-assign inside a magnitude box (|int| <= 8, strings <= 3 bytes, closed float set): transitions leaving the box are executed and checked but not expanded; plus all unmerged histories of depth {depth} over the full action alphabet; plus 23 forms of the context_map! macro (every entry kind in every position, with and without the trailing comma, retyped duplicate keys) against the equivalent API calls; plus every history of <= 4 (quick) / 5 (thorough) operations {{call through context i by call_function / eval_with_context / an assigning eval_with_context_mut; clone context i; clone_from context i into context j}} over up to three contexts holding a user function whose closure owns a counter that its Clone deep-copies, against a model with one counter per context (clone independence includes the state registered functions own); scaling families: contexts with n variables of cycling types (set, listed, looked up, retyped, cloned, cleared) and n rounds of op-assigns on one variable, n in 1..20 and up to 129 / 1..40 and up to 400. Non-trivial/distinct = unique abstract states"),
+        rule: format!("explicit-state breadth-first search (stateright) from the empty context; a state is the real HashMapContext paired with the abstract map model, merged by (sorted observation of the real context, model); every transition calls the real API on a clone (set_value; `n = lit`; `n op= lit` for the 8 op-assign operators x one right-hand side per type; `n op= lit op lit` with the operator's own base operator on the right-hand side; `n = m`; `n = unbound`; clear_variables / clear_functions / clear; set_function; builtin switch; clone-and-continue) over names {{a, b}} (+ never-bound c), 15 values (ints 1, 2; floats 1.5, 1.0, 0.0, -0.0, NaN; strings `s` and `a` (the latter spells a variable name); two booleans; tuples of length 0/1/2; Empty); after every transition the return value and the complete observation (get_value of every name, both listings, call_function of every function name, builtin switch, reads through eval_with_context) are compared with the model, and the parent state must be unchanged. Closed sub-machine to closure; with op-assign inside a magnitude box (|int| <= 8, strings <= 3 bytes, closed float set): transitions leaving the box are executed and checked but not expanded; plus all unmerged histories of depth {depth} over the full action alphabet; plus 23 forms of the context_map! macro (every entry kind in every position, with and without the trailing comma, retyped duplicate keys) against the equivalent API calls; scaling families: contexts with n variables of cycling types (set, listed, looked up, retyped, cloned, cleared) and n rounds of op-assigns on one variable, n in 1..20 and up to 129 / 1..40 and up to 400. Non-trivial/distinct = unique abstract states"),
         nontrivial_set: "counter:nontrivial-distinct",
         exhaustive: true,
         bound_completed: format!("closed machine: closure; boxed machine: {}; unmerged histories: depth {}", match cfg.tier { Tier::Quick => "depth 3", Tier::Thorough => "fixpoint of the box" }, depth),
@@ -1145,7 +1151,6 @@ pub fn replay(case: &J) -> i32 {
         // a scaling-family case: the families are cheap, re-run them
         st = scaling(true);
         st.merge(context_map_forms());
-        st.merge(stateful_function_clones(4));
         return super::replay_verdict(ID, &st);
     }
     for c in codes {
